@@ -75,9 +75,10 @@ Pattern(name, S) ==
          [] name = "W" -> MRec(TRUE, m >= 1, 0, m = 1)
          [] name = "N" -> MRec(m <= 1, FALSE, 0, FALSE)]
 
-Names == <<"a", "b">>
+Names == <<"a", "b", "c">>
 X0(ai, p, ghost) == IF ai = 1 THEN (IF ghost THEN 2 ELSE p - 1)
-                    ELSE (IF ghost THEN 6 ELSE 2 * p + 1)
+                    ELSE IF ai = 2 THEN (IF ghost THEN 6 ELSE 2 * p + 1)
+                    ELSE (IF ghost THEN 10 ELSE 7 + p)
 Particle(ai, p, ghost) ==
     [x |-> X0(ai, p, ghost), s |-> 1 + p + 4 * ai, v |-> 0, au |-> 0,
      g |-> ghost]
@@ -88,7 +89,10 @@ StepsOf(n) == IF n = 1 THEN << [t |-> 8, dt |-> 4] >>
 NDom(prog, ns) ==
     ns * Cardinality({k \in 1..Len(prog.ops) : prog.ops[k].op = "domain"})
 
-Cases ==
+\* The arrays of one case: array ai has stepper pattern pats[ai] and the
+\* stepper attribute k0 = ai.  Arrays with the same pattern get instances of
+\* the SAME stepper class constructed with DIFFERENT k (PatsD).
+CasesFor(pats) ==
     {[id |-> "d", e |-> 0, vis |-> TRUE, ops |-> prog.ops,
       arrs |-> [ai \in 1..Len(pats) |->
                   [name |-> Names[ai], nreal |-> nr[ai], k0 |-> ai,
@@ -106,9 +110,10 @@ Cases ==
                          THEN << [src |-> nr[ai] - 1, sh |-> 16] >>
                          ELSE << >>]]
               ELSE << >>] :
-        prog \in Programs, pats \in PatSets,
-        nr \in [1..2 -> NReals], ng \in [1..2 -> NGhosts],
+        prog \in Programs,
+        nr \in [1..Len(pats) -> NReals], ng \in [1..Len(pats) -> NGhosts],
         ns \in StepSets, per \in Periodics}
+Cases == UNION {CasesFor(pats) : pats \in PatSets}
 
 \* every method the program calls exists on some stepper (else the real
 \* thing does not compile); canonical: unused second entries are 0
@@ -126,6 +131,7 @@ PatsA == {<<"L">>, <<"P">>, <<"O">>, <<"W">>, <<"P", "N">>, <<"L", "P">>,
           <<"O", "L">>}
 PatsB == {<<"P">>, <<"O">>, <<"L", "P">>, <<"P", "N">>}
 PatsC == {<<"L", "P">>}
+PatsD == {<<"L", "P", "L">>, <<"W", "O", "W">>}
 
 NoStates == pc < 0       \* CONSTRAINT of the run that only prints
 Init == \E c \in Universe : Start(c, FALSE)
